@@ -2,11 +2,11 @@ package absint
 
 import (
 	"fmt"
-	"os"
 	"go/ast"
 	"go/token"
 	"go/types"
 	"math/big"
+	"os"
 	"strings"
 )
 
